@@ -1113,9 +1113,9 @@ func TestVerifC01(t *testing.T) {
 	w := bufio.NewWriterSize(f, 1<<20)
 	defer w.Flush()
 
-	perKind, maxSteps, maxAdds := 14, 50, 8
+	perKind, maxSteps, maxAdds := 24, 50, 8
 	if tier == "thorough" {
-		perKind, maxSteps, maxAdds = 160, 140, 14
+		perKind, maxSteps, maxAdds = 120, 130, 14
 	}
 	if v, err := strconv.Atoi(os.Getenv("VERIF_C01_CASES")); err == nil && v > 0 {
 		perKind = v
